@@ -486,9 +486,15 @@ def check_member_loop(ctx, rep):
         t = vm.term(b)
         if t["k"] == "switch":
             v = G.describe(vm, t["op"])
-            if v.kind == "call" and v.v.endswith("::eq") and any(a.kind == "conststr" and a.v == "_kind" for a in v.args):
+            from rules import pathcond as _PC
+
+            atom, pol = _PC._canon(v)
+            if atom is not None and atom.startswith("eq(") and "conststr:_kind" in atom:
+                # the edge on which `key == "_kind"` holds, whichever way the test is spelled (`==`, `!=`, negated)
                 vals = {int(x[0]): x[1] for x in t["targets"]}
-                te = t["otherwise"] if 0 in vals else vals.get(1)
+                true_edge = t["otherwise"] if 0 in vals else vals.get(1)
+                false_edge = vals.get(0, t["otherwise"] if 1 in vals else None)
+                te = true_edge if pol else false_edge
                 if te is not None:
                     kind_true.add(te)
     start = vm.term(nb).get("t")
